@@ -13,7 +13,7 @@ from vlib.common import case_seed, digest
 RULE = ("generated (d=1..4, 1<=lmin<=lmax, lmax-lmin<=4, box kind in unit/shifted/negative/anisotropic/tiny/huge/dyadic, "
         "boundary on/off) configurations of the real StandardCombi+Integration+TrapezoidalGrid; integrand = vector function "
         "[hash-valued arbitrary function, nodal hats of component grids whose level lies in the index set (all for small "
-        "configurations, <=32 sampled otherwise), 4 random combinations]. distinct = (d,lmin,lmax,boundary,box digest); "
+        "configurations, <=32 sampled otherwise), 4 random combinations]. plus object-reuse histories: the same StandardCombi object is first run on other levels and read through its read-only helpers (print_subspaces / print_resulting_combi_scheme / print_resulting_sparsegrid / plot / get_total_num_points / __call__ / get_points_and_weights / check_combi_scheme) before the observed perform_operation. distinct = (d,lmin,lmax,boundary,box digest); "
         "non-trivial = lmax>lmin and d>=2")
 REQUIRED = ["bitwise_nested", "scheme_coefficients", "points_on_dyadic_grid", "union_is_sparse_grid", "coefficient_sum_per_point",
             "reported_count_matches_points", "nodal_reproduction_call", "nodal_reproduction_grid", "hat_integral_exact",
